@@ -728,6 +728,10 @@ func (ar *archiveReader) iterate(ctx context.Context, cb func(chunks.Chunk) erro
 		}
 
 		span := ar.getByteSpanByID(byteSpanCounter)
+		if span.length > dataSpan.length {
+			// The span index is not validated when it is loaded. No span is longer than the data section.
+			return fmt.Errorf("invalid byte span %d in archive %s: length %d exceeds data section size %d", byteSpanCounter, ar.footer.hash.String(), span.length, dataSpan.length)
+		}
 		for cap(buf) < int(span.length) {
 			buf = append(buf, make([]byte, cap(buf))...)
 		}
@@ -828,6 +832,12 @@ func (ar *archiveReader) tolerantIterate(ctx context.Context, cb func(chunks.Chu
 		}
 
 		span := ar.getByteSpanByID(byteSpanCounter)
+		if span.length > dataSpan.length {
+			// The span index is not validated when it is loaded. No span is longer than the data section, and
+			// without a trustworthy length the sequential read cannot continue.
+			errCb(fmt.Errorf("invalid byte span %d in archive: length %d exceeds data section size %d", byteSpanCounter, span.length, dataSpan.length))
+			return
+		}
 		for cap(buf) < int(span.length) {
 			buf = append(buf, make([]byte, cap(buf))...)
 		}
